@@ -24,13 +24,35 @@ def gen_workers(rng):
     return pools
 
 
-def gen_workload(rng, malformed=False, batch=False, dag=False):
+def gen_workload(rng, malformed=False, batch=False, dag=False, resolve=False):
     graphs, profiles = [], []
     njobs = rng.choice([1, 1, 2, 3])
     for ji in range(njobs):
         jname = f"J{ji}"
         b = tgen.Builder(rng, jname)
-        if rng.random() < (0.0 if dag else 0.75):
+        if resolve:
+            # two or three conditional / join pairs in sequence (the later ones are decided at submission too)
+            prev_join = None
+            for _k in range(rng.choice([2, 2, 3])):
+                c = b.task(conditional=True)
+                kk = rng.choice([2, 2, 3])
+                probs = rng.choice(tgen.PROB_SETS[kk])
+                join_parents = []
+                for i in range(kk):
+                    head = b.task(prob=probs[i])
+                    b.edge(c, head)
+                    tail = head
+                    if rng.random() < 0.4:
+                        tail = b.task()
+                        b.edge(head, tail)
+                    join_parents.append(tail)
+                join = b.task(terminal=True)
+                for x in join_parents:
+                    b.edge(x, join)
+                if prev_join is not None:
+                    b.edge(prev_join, c)
+                prev_join = join
+        elif rng.random() < (0.0 if dag else 0.75):
             b.term(rng.choice([0, 1, 1, 2, 2]))
         else:
             n = rng.randint(4, 7) if dag else rng.randint(1, 5)
@@ -106,12 +128,18 @@ def gen_world(rng, stream="regular"):
     malformed = stream == "malformed"
     batch = stream == "batch"
     dag = stream == "dag"  # plain multi-parent DAGs (joins behind paths of different length) under the bundled greedy policies
-    wl = gen_workload(rng, malformed, batch, dag)
+    resolve = stream == "resolve"   # conditionals resolved at submission, several conditional/join pairs per job
+    wl = gen_workload(rng, malformed, batch, dag, resolve)
+    if resolve:
+        for g in wl["graphs"]:
+            if g["release_policy"] == "closed_loop":
+                g.update(release_policy="fixed", period=rng.choice([0, 5, 20]))
+                g.pop("concurrency", None)
     periodic = any(g["release_policy"] == "periodic" for g in wl["graphs"])
     pol = rng.choice(["EDF", "FIFO", "LSF", "RANDOM", "RANDOM"])
     if batch:
         pol = "RANDOM"
-    if dag:
+    if dag or resolve:
         pol = rng.choice(["EDF", "FIFO", "LSF"])
     flags = {
         "loop_timeout": rng.choice([60, 120, 400]) if (periodic or rng.random() < 0.3) else rng.choice([9223372036854775807, 5000]),
@@ -123,6 +151,10 @@ def gen_world(rng, stream="regular"):
         "workload_update_interval": rng.choice([-1, -1, -1, 50]),
         "release_taskgraphs": False,
     }
+    if (resolve or rng.random() < 0.25) and not any(g["release_policy"] == "closed_loop" for g in wl["graphs"]):
+        # branches drawn when the task graph is generated (follow-up graphs of a closed loop are generated by the
+        # model from the unresolved template, so the flag is only used without closed-loop jobs)
+        flags["resolve_conditionals_at_submission"] = True
     policy = {"name": pol}
     if pol in ("EDF", "FIFO"):
         policy["enforce_deadlines"] = rng.random() < 0.3
